@@ -179,7 +179,7 @@ def c18(tier, replay):
     # many more positions with the full run and a handful of expiry points only: promotion races, under-promotions, special
     # moves that give check, mates - the lines whose scores sit at the edges of the ranges (a mate found inside the capture
     # search has no distance: `mate 0`)
-    scen2 = make_scenarios(h, 0, 10 if q else 120, 0, 0, "C18wide", 60 if q else 600)
+    scen2 = make_scenarios(h, 0, 16 if q else 120, 0, 0, "C18wide", 80 if q else 600)
     t2, _ = run_expiry(run, "C18", h, scen2, "mate,fam", 3, 4, 400000, 2, "wide")
     os.remove(scen2)
     run.cov["wide_scenarios"] = t2.get("sfull", 0)
